@@ -959,9 +959,10 @@ class ContainerEngine:
         if prop == "C17":
             w.update(pack=16, boundary=10)
         if prop == "C15":
-            w.update(actor=45, meta_set=14)
+            w.update(actor=45, meta_set=22)
         if prop == "C09":
             w.update(boundary=12, reopen=6)
+            dgen.w.update(set_attr=16, del_attr=10)
         if prop == "C20":
             w.update(meta_set=30)
         kinds = list(w)
@@ -1659,6 +1660,12 @@ def op_attempt(w, op):
         except Exception:
             pass
         nm = names[arg % len(names)] if names else "x"
+        if names and kind in ("g_delitem", "g_move", "g_copy"):
+            # prefer a victim that carries metadata (at or below it)
+            base = node.name.rstrip("/")
+            withmeta = [n for n in names if any(q == f"{base}/{n}" or q.startswith(f"{base}/{n}/") for q in w.meta)]
+            if withmeta:
+                nm = withmeta[arg % len(withmeta)]
         try:
             if kind == "g_setitem":
                 node["zz_new"] = 1
